@@ -53,28 +53,28 @@ func buildEvidence(d Driver, o CheckOpts, info Info, total workerSummary, distin
 		perHour = float64(total.Evaluations) / wall * 3600
 	}
 	cov := map[string]interface{}{
-		"evaluations":                  total.Evaluations,
-		"distinct_nontrivial":          distinct["keys"],
-		"rule":                         info.Rule + " distinct_nontrivial is the number of set bits in a hashed bitmap of the case keys of non-trivial runs, OR-ed over all worker processes: a measured lower bound on the number of distinct non-trivial cases.",
-		"samples":                      samples,
-		"nontrivial_evaluations":       total.Nontrivial,
-		"discarded_runs":               total.Discards,
-		"simulated_runs_per_hour":      int64(perHour),
-		"seeds":                        "one master seed; run i uses splitmix(fnv(seed, property), i); every choice of a run is drawn from that stream",
-		"simulated_time_ticks":         total.Ticks,
-		"faults_fired":                 faults,
-		"probes_hit":                   probes,
-		"map_sites_consulted_noncanon": sites,
-		"other_counters":               other,
+		"evaluations":                     total.Evaluations,
+		"distinct_nontrivial":             distinct["keys"],
+		"rule":                            info.Rule + " distinct_nontrivial is the number of set bits in a hashed bitmap of the case keys of non-trivial runs, OR-ed over all worker processes: a measured lower bound on the number of distinct non-trivial cases.",
+		"samples":                         samples,
+		"nontrivial_evaluations":          total.Nontrivial,
+		"discarded_runs":                  total.Discards,
+		"simulated_runs_per_hour":         int64(perHour),
+		"seeds":                           "one master seed; run i uses splitmix(fnv(seed, property), i); every choice of a run is drawn from that stream",
+		"simulated_time_ticks":            total.Ticks,
+		"faults_fired":                    faults,
+		"probes_hit":                      probes,
+		"map_sites_consulted_noncanon":    sites,
+		"other_counters":                  other,
 		"distinct_schedules_lower_bound":  distinct["scheds"],
 		"distinct_end_states_lower_bound": distinct["states"],
-		"components_real":              info.Real,
-		"components_stub":              info.Stub,
-		"worker_processes":             o.Workers,
-		"process_deaths_attributed":    crashes,
-		"known_findings_reproduced":    knownPrinted,
-		"violations_all_runs":          allViol,
-		"exhaustive":                   false,
+		"components_real":                 info.Real,
+		"components_stub":                 info.Stub,
+		"worker_processes":                o.Workers,
+		"process_deaths_attributed":       crashes,
+		"known_findings_reproduced":       knownPrinted,
+		"violations_all_runs":             allViol,
+		"exhaustive":                      false,
 	}
 	if len(trouble) > 0 {
 		cov["machinery_trouble"] = trouble
